@@ -100,6 +100,19 @@ func checkC08(c AlignCase, o *Obs) error {
 	}
 	gaps, _, _ := gapStats(res.steps)
 	o.NT = gaps > 0 || len(c.A) != len(c.B)
+	// a further call (arguments swapped) must be valid too and must not disturb the first result
+	sw := c
+	sw.A, sw.B = c.B, c.A
+	resSw, err := runAlign(sw, m)
+	if err != nil {
+		return err
+	}
+	if err := checkValidity(sw, rm, resSw, &Obs{}); err != nil {
+		return err
+	}
+	if err := res.stepsUnchanged(); err != nil {
+		return err
+	}
 	if applyMutation(c, m, rm) {
 		o.Class("matrix changed in place between calls")
 		res2, err := runAlign(c, m)
@@ -117,11 +130,11 @@ func checkC08(c AlignCase, o *Obs) error {
 func fixedMatrices(openValues []int, localOK bool) []MatSpec {
 	var out []MatSpec
 	pairs := [][][]int{
-		{{1, -1}, {-1, 1}},  // match/mismatch
-		{{2, -3}, {-3, 2}},  // harsher mismatch
-		{{1, 0}, {-2, 3}},   // asymmetric
-		{{0, 0}, {0, 0}},    // all zero
-		{{5, -1}, {-1, 1}},  // unequal diagonal
+		{{1, -1}, {-1, 1}},   // match/mismatch
+		{{2, -3}, {-3, 2}},   // harsher mismatch
+		{{1, 0}, {-2, 3}},    // asymmetric
+		{{0, 0}, {0, 0}},     // all zero
+		{{5, -1}, {-1, 1}},   // unequal diagonal
 		{{-1, -2}, {-2, -1}}, // nothing positive
 	}
 	gaps := [][2][]int{
@@ -141,6 +154,11 @@ func fixedMatrices(openValues []int, localOK bool) []MatSpec {
 				out = append(out, MatSpec{Letters: gen.B("ab"), Pair: p, DelGap: g[0], InsGap: g[1], Open: open})
 			}
 		}
+	}
+	// the same scores scaled beyond float32 precision
+	for _, open := range openValues {
+		out = append(out, MatSpec{Letters: gen.B("ab"), Pair: pairs[0], DelGap: gaps[0][0], InsGap: gaps[0][1], Open: open, Scale: 16777217},
+			MatSpec{Letters: gen.B("ab"), Pair: pairs[2], DelGap: gaps[1][0], InsGap: gaps[1][1], Open: open, Scale: 1000003})
 	}
 	return out
 }
